@@ -262,8 +262,30 @@ def regen_scenario(tier):
                     init=[4], depth=4 if tier == "quick" else 5, tags=["readonly", "manifest-regen"])
 
 
+def regen_prerequisite_scenario(tier):
+    """The manifest is up to date itself but has an order-only prerequisite whose command has changed: ninja brings the
+    prerequisite up to date in the manifest phase and then scans the graph a second time in the same process (a dry run
+    only pretends the first part: what it lists afterwards must still be what the real build runs)."""
+    def regen(name, ver):
+        return Variant(name, [Stmt("build.ninja", ex=["build.ninja.in"], oo=["x", "y"], generator=True, copy=True),
+                              Stmt("x", ex=["sx"], ver=ver), Stmt("y", ver=ver), Stmt("out", ex=["y"]), Stmt("outx", ex=["x"]), Stmt("side", ex=["s"])], defaults=["out", "outx", "side"])
+    va, vb = regen("m0", 0), regen("m1", 1)
+    # (the generator's input and the manifest are both rewritten by hand, the manifest last: it is not out of date)
+    ops = [{"op": "write", "path": "build.ninja.in", "content": vb.manifest(), "label": "build.ninja.in:=m1"},
+           {"op": "write", "path": "build.ninja", "content": vb.manifest(), "label": "build.ninja:=m1 (by hand, newer than build.ninja.in)"},
+           {"op": "edit", "path": "sx", "label": "edit sx"}, {"op": "rm", "path": "x", "label": "rm x"},
+           ninja_op(j=2)]
+    tools = [ninja_op(j=2, flags=["-n"], dry_run=True, label="ninja -j2 -n"),
+             ninja_op(j=1, flags=["-n", "-v"], dry_run=True, label="ninja -j1 -n -v"),
+             ninja_op(targets=["out"], j=1, flags=["-n"], dry_run=True, label="ninja -j1 -n out")]
+    for t in tools:
+        t["no_expand"] = True
+    return scenario("c19/manifest_prerequisite_out_of_date", "c19", [va, vb], files={"build.ninja.in": va.manifest(), "s": "s-v0\n", "sx": "sx-v0\n"},
+                    ops=ops + tools, init=[4], depth=4 if tier == "quick" else 5, tags=["readonly", "manifest-regen"])
+
+
 def readonly_scenarios(tier="quick"):
-    T = [regen_scenario(tier)]
+    T = [regen_scenario(tier), regen_prerequisite_scenario(tier)]
     for name, variants in shapes() + builddir_shapes():
         if name in ("two_dyndep", "one_scan_two_dyndep", "shared_dyndep_file_with_a_stale_entry") or name.startswith("dyndep_claims"):
             continue   # C19 is stated for graphs without pending dyndep files
